@@ -4,7 +4,8 @@ From Coq Require Import List NArith Arith.
 From DS Require Import Gen.Constants Base.Bytes Base.Word32 Model.Chunker
      Model.PChunker Base.Hash Base.Sched
      Proofs.RollProofs Proofs.ChunkerSpecProofs Proofs.ChunkerImplProofs Proofs.PChunkerMain Proofs.PChunkerOld Proofs.PChunkerLive
-     Model.PChunkerTrace Proofs.PChunkerTraceProofs Model.Discriminator Proofs.DiscriminatorProofs.
+     Model.PChunkerTrace Proofs.PChunkerTraceProofs Model.Discriminator Proofs.DiscriminatorProofs
+     Model.IndexFlags Proofs.IndexFlagsProofs.
 Import ListNotations.
 
 (* The incremental hash update of Chunker.Next (rotate, xor out the byte leaving the window
@@ -203,3 +204,32 @@ Theorem C02_disc_monotone : forall a b : N, (a <= b)%N -> (b <= disc_avg_limit)%
   (disc_of_avg a <= disc_of_avg b)%N.
 Proof. exact disc_monotone. Qed.
 Print Assumptions C02_disc_monotone.
+
+(* "RECORDS THE CORRECT ... PARAMETERS": the feature flags of the index IndexFromFile returns
+   (make.go; both flag expressions are regenerated from the source on every run).  Whatever the
+   input file's catar header claims, the digest flag of the index says which digest made the chunk
+   ids; so the configuration that made the index can read it back, a configuration with the other
+   digest refuses it, and no other flag of the catar is lost. *)
+Theorem C02_index_flags_digest_bit : forall d512 catar, has_digest_bit (index_flags d512 catar) = d512.
+Proof. exact index_flags_digest_bit. Qed.
+Print Assumptions C02_index_flags_digest_bit.
+
+Theorem C02_made_index_is_readable : forall d512 catar, reader_accepts d512 (index_flags d512 catar) = true.
+Proof. exact made_index_is_readable. Qed.
+Print Assumptions C02_made_index_is_readable.
+
+Theorem C02_made_index_refused_by_other_digest : forall d512 catar,
+  reader_accepts (negb d512) (index_flags d512 catar) = false.
+Proof. exact made_index_refused_by_other_digest. Qed.
+Print Assumptions C02_made_index_refused_by_other_digest.
+
+Theorem C02_index_flags_keeps_catar_flags : forall d512 t,
+  N.ldiff (index_flags d512 (Some t)) CaFormatSHA512256
+  = N.ldiff (N.lor CaFormatExcludeNoDump t) CaFormatSHA512256.
+Proof. exact index_flags_keeps_catar_flags. Qed.
+Print Assumptions C02_index_flags_keeps_catar_flags.
+
+Example C02_flags_example :
+  index_flags false (Some TarFeatureFlags) = 0x9000000010001f22%N /\ index_flags true (Some TarFeatureFlags) = TarFeatureFlags /\
+  index_flags false None = CaFormatExcludeNoDump.
+Proof. vm_compute. repeat split. Qed.
